@@ -56,6 +56,26 @@ Theorem C19_symbols_declared_before_use : forall pid_of info sfk fuel config f s
 Proof. intros pid_of info sfk fuel config f so so' H Hp He. exact (symbols_declared_before_use pid_of info sfk fuel config f so so' H Hp He). Qed.
 Print Assumptions C19_symbols_declared_before_use.
 
+(* the members of an array (make_pars / strip_pararray): exactly the parameters whose name contains the family prefix, each once,
+   under their programmatic names, ordered by the integer read after the prefix (key_plain: int(name[len(prefix):]) for the
+   spline and f_scatt families; key_is: i*6 + index of the channel for IS_p<i>_<channel>) — strictly, when the integers are
+   distinct, so that the order does not depend on the sorting algorithm *)
+Theorem C19_array_members_ordered : forall key par_names prefix els, pararray key par_names prefix = Some els ->
+  exists kn, map snd kn = filter (contains prefix) par_names /\ Forall (fun x => key prefix (snd x) = Some (fst x)) kn /\
+             exists sorted, els = map (fun x => programmatic (snd x)) sorted /\ Permutation.Permutation sorted kn /\
+                            (NoDup (map fst kn) -> Sorted.StronglySorted (fun a b : Z * string => (fst a < fst b)%Z) sorted).
+Proof.
+  intros key ps b els H. destruct (pararray_spec key ps b els H) as (kn & E1 & E2 & E3 & P & _ & S).
+  exists kn. split; [exact E1|]. split; [exact E2|]. exists (sort_keyed kn). split; [exact E3|]. split; [exact P | exact S].
+Qed.
+Print Assumptions C19_array_members_ordered.
+
+Example C19_array_order_example :
+  pararray key_is ["IS_p2_KK"; "sA"; "IS_p1_mass"; "IS_p1_pipi"; "IS_p10_4pi"] "IS_p" = Some ["IS_p1_pipi"; "IS_p1_mass"; "IS_p2_KK"; "IS_p10_4pi"]
+  /\ pararray key_plain ["f_scatt10"; "f_scatt2"; "x"; "f_scatt0"] "f_scatt" = Some ["f_scatt_0"; "f_scatt2"; "f_scatt1_0"]
+  /\ pararray key_plain ["f_scatt_a"] "f_scatt" = None.
+Proof. vm_compute. repeat split. Qed.
+
 (* non-vacuity: a file with a spline and a K-matrix lineshape that meets the premise; its arrays are declared and used *)
 Definition ex19 : list oline :=
   [OEvent ["D0"; "K-"; "pi+"; "pi+"; "pi-"];
